@@ -168,6 +168,17 @@ impl<'a> Outbound<'a> {
         MAX_RETAINED.min(MAX_PENDING_RELEASE) as u16
     }
 
+    /// Number of QoS 1/2 publish exchanges still unresolved: retained PUBLISH packets plus
+    /// PUBRELs awaiting PUBCOMP.
+    pub(super) fn unresolved_publishes(&self) -> u16 {
+        let publishes = self
+            .retained
+            .iter()
+            .filter(|entry| self.buf.get(entry.offset).is_some_and(|first| first >> 4 == 3))
+            .count();
+        (publishes + self.pending_release.len()) as u16
+    }
+
     fn used_after_compact(&self) -> usize {
         self.retained.iter().map(|entry| entry.len).sum()
     }
